@@ -76,6 +76,8 @@ def run_scenario(scn, tid, parser_factory=None, fresh=None):
     conv = Conv(impl)
     if parser_factory:
         parser = parser_factory()
+    elif scn.get('cache'):
+        parser = SqParser(parse_cache={})       # a caching parser of its own: the same text gives the same tree object again
     elif fresh or scn.get('fresh'):
         parser = SqParser()
     else:
@@ -103,11 +105,15 @@ def run_scenario(scn, tid, parser_factory=None, fresh=None):
     captured = {}
     orig_parse = parser.parse
 
+    treespec = {}
+
     def capturing_parse(expr):
         t = orig_parse(expr)
         captured['tree'] = t
-        if t is not None and id(t) not in nodeids:
-            captured['spec'] = tree_to_spec(impl, t, conv, counter, nodeids)
+        if t is not None:
+            if id(t) not in treespec:
+                treespec[id(t)] = (t, tree_to_spec(impl, t, conv, counter, nodeids))      # (t kept alive: ids are not reused)
+            captured['spec'] = treespec[id(t)][1]
         return t
     parser.parse = capturing_parse
     try:
@@ -125,6 +131,9 @@ def _run_calls(scn, tid, impl, conv, parser, orig_parse, captured, hostfns, name
     state = {'anon': 0}
 
     def one_call(ci, c, do_eval, repl_names=None):
+        if c.get('max') is None and 'delta' in c:
+            # budget relative to what the measured (first) call of this scenario needed: need + delta
+            c = dict(c, max=max(1, state.get('measured', 50) + 1 + c['delta']))
         kw = {}
         n = c.get('n')
         if n is not None:
@@ -145,6 +154,13 @@ def _run_calls(scn, tid, impl, conv, parser, orig_parse, captured, hostfns, name
             astn = {}
             items = c['ast'].items() if isinstance(c['ast'], dict) else c['ast']
             for k, x in items:
+                key = json.dumps([k, x], sort_keys=True, default=str)
+                if scn.get('ast_shared') and key in state.setdefault('ast_nodes', {}):
+                    # the host built this node once and hands the same object to every call
+                    node, spec = state['ast_nodes'][key]
+                    ast_spec.append({'name': k, 'tree': spec})
+                    astn[k] = node
+                    continue
                 if isinstance(x, str):
                     node = orig_parse(x).lines[0]
                 elif 'tree' in x:
@@ -154,6 +170,8 @@ def _run_calls(scn, tid, impl, conv, parser, orig_parse, captured, hostfns, name
                     node = A.LambdaOp(args=[A.NameOp(p) for p in x['params']], expr=orig_parse(x['body']))
                 ast_spec.append({'name': k, 'tree': tree_to_spec(impl, node, conv, counter, nodeids)})
                 astn[k] = node
+                if scn.get('ast_shared'):
+                    state['ast_nodes'][key] = (node, ast_spec[-1]['tree'])
             kw['ast_names'] = astn
         listed = None
         if scn.get('list_names'):
@@ -221,6 +239,8 @@ def _run_calls(scn, tid, impl, conv, parser, orig_parse, captured, hostfns, name
             for v, s in states:
                 if v == nvm_before + 1:
                     call_ops = getattr(s, 'ops_evaluated', -1)
+        if c.get('measure'):
+            state['measured'] = call_ops
         end = {'e': 'end', 'out': out, 'ops': call_ops, 'nev': nev,
                'names': {'n%d' % (i + 1): {k: conv.deep(v) for k, v in nm.items()} for i, nm in enumerate(names_py)},
                'depth': depth,
@@ -242,7 +262,7 @@ def _run_calls(scn, tid, impl, conv, parser, orig_parse, captured, hostfns, name
     else:
         loop = None
         for ci, c in enumerate(scn['calls']):
-            one_call(ci, c, lambda kw, c=c: parser.eval(c['src'], **kw))
+            one_call(ci, c, lambda kw, c=c: parser.eval(c['src'], **kw))      # (kw carries the budget one_call computed)
             if TRACER.overflow:
                 break
     case = {'tid': tid, 'calls': calls, 'names0': names0, 'heap0': heap0, 'host': host_spec(host, ret_refs),
